@@ -27,6 +27,10 @@ def m(id, prop, rule, file, old, new, kind="fire", nth=1):
 
 _SH_OLD = ("self.sock.sendall(cmd)", 'self.sock.sendall(b"".join(cmds))', 'self.sock.sendall(b"".join(cmds))', "            if e.errno != errno.EINTR:\n                raise\n")
 _SH_NEW = ("_sendall(self.sock, cmd)", '_sendall(self.sock, b"".join(cmds))', '_sendall(self.sock, b"".join(cmds))')
+_HB_OLD = "    def version(self) -> bytes:\n        with self.client_pool.get_and_release(destroy_on_fail=True) as client:\n            return client.version()\n"
+_HB = "    def version(self) -> bytes:\n        client = self.client_pool.get()\n        try:\n            result = client.version()\n        except %s:\n            self.client_pool.%s(client)\n            raise\n        self.client_pool.release(client)\n%s        return result\n"
+_CB_OLD = ("            after_remove=lambda client: client.close(),\n", "    def close(self) -> None:\n        self.client_pool.clear()\n")
+_CB_NEW = ("            after_remove=self._discard_client,\n", "    def _discard_client(self, client):\n%s\n    def close(self) -> None:\n        self.client_pool.clear()\n")
 
 
 MUTANTS = [
@@ -43,6 +47,40 @@ MUTANTS = [
     m("C01-send-helper-swallows", "C01", "C01.R7", B, _SH_OLD, _SH_NEW + ("            if e.errno != errno.EINTR:\n                raise\n\n\ndef _sendall(sock, data):\n    try:\n        sock.sendall(data)\n    except OSError:\n        pass\n",)),
     m("C01-send-helper-twice", "C01", "C01.R7", B, _SH_OLD, _SH_NEW + ("            if e.errno != errno.EINTR:\n                raise\n\n\ndef _sendall(sock, data):\n    sock.sendall(data)\n    if len(data) > 1024:\n        sock.sendall(data)\n",)),
     m("C01-silent-send-helper", "C01", "", B, _SH_OLD, _SH_NEW + ("            if e.errno != errno.EINTR:\n                raise\n\n\ndef _sendall(sock, data):\n    try:\n        sock.sendall(data)\n    except OSError:\n        raise\n",), kind="silent"),
+    # hand-made pool brackets: client_pool.get() ... release / destroy in the method itself
+    m("C10-handmade-bracket-exception-only", "C10", "C10.R2", B, _HB_OLD, _HB % ("Exception", "destroy", "")),
+    m("C09-handmade-bracket-releases-failed", "C09", "C09.R1", B, _HB_OLD, _HB % ("BaseException", "release", "")),
+    m("C09-handmade-bracket-no-give-back", "C09", "C09.R1", B, _HB_OLD, "    def version(self) -> bytes:\n        client = self.client_pool.get()\n        return client.version()\n"),
+    m("C08-handmade-bracket-late-use", "C08", "C08.R5", B, _HB_OLD, _HB % ("BaseException", "destroy", "        client.close()\n")),
+    m("C08-silent-handmade-bracket", "C08", "", B, _HB_OLD, _HB % ("BaseException", "destroy", ""), kind="silent"),
+    m("C09-silent-handmade-bracket", "C09", "", B, _HB_OLD, _HB % ("BaseException", "destroy", ""), kind="silent"),
+    m("C10-silent-handmade-bracket", "C10", "", B, _HB_OLD, _HB % ("BaseException", "destroy", ""), kind="silent"),
+    m("C16-silent-handmade-bracket", "C16", "", B, _HB_OLD, _HB % ("BaseException", "destroy", ""), kind="silent"),
+    m("C07-silent-handmade-bracket", "C07", "", B, _HB_OLD, _HB % ("BaseException", "destroy", ""), kind="silent"),
+    # the pool's callbacks given as methods instead of lambdas
+    m("C09-after-remove-method-quits", "C09", "C09.R3", B, _CB_OLD, (_CB_NEW[0], _CB_NEW[1] % "        client.quit()\n")),
+    m("C08-after-remove-method-touches-pool", "C08", "C08.R4", B, _CB_OLD, (_CB_NEW[0], _CB_NEW[1] % "        client.close()\n        self.client_pool.destroy(client)\n")),
+    m("C08-silent-after-remove-method", "C08", "", B, _CB_OLD, (_CB_NEW[0], _CB_NEW[1] % "        client.close()\n"), kind="silent"),
+    m("C09-silent-after-remove-method", "C09", "", B, _CB_OLD, (_CB_NEW[0], _CB_NEW[1] % "        client.close()\n"), kind="silent"),
+    m("C09-silent-after-remove-unbound", "C09", "", B, "after_remove=lambda client: client.close(),", "after_remove=Client.close,", kind="silent"),
+    m("C08-silent-creator-lambda", "C08", "", B, "            self._create_client,\n            after_remove", "            lambda: self._create_client(),\n            after_remove", kind="silent"),
+    m("C16-silent-creator-lambda", "C16", "", B, "            self._create_client,\n            after_remove", "            lambda: self._create_client(),\n            after_remove", kind="silent"),
+    # callables written as nested defs instead of lambdas
+    m("C11-hash-wiring-def-drops-seed", "C11", "C11.R2", RV, "        self.hash_function = lambda x: hash_function(x, seed)\n", "        def _seeded(value):\n            return hash_function(value)\n\n        self.hash_function = _seeded\n"),
+    m("C11-silent-hash-wiring-def", "C11", "", RV, "        self.hash_function = lambda x: hash_function(x, seed)\n", "        def _seeded(value):\n            return hash_function(value, seed)\n\n        self.hash_function = _seeded\n", kind="silent"),
+    m("C16-getattr-def-drops-kwargs", "C16", "C16.R4", R, "        return lambda *args, **kwargs: self._retry(\n            name, self._client.__getattribute__(name), *args, **kwargs\n        )\n", "        func = getattr(self._client, name)\n\n        def call(*args, **kwargs):\n            return self._retry(name, func, *args)\n\n        return call\n"),
+    m("C16-getattr-def-wrong-method", "C16", "C16.R4", R, "        return lambda *args, **kwargs: self._retry(\n            name, self._client.__getattribute__(name), *args, **kwargs\n        )\n", "        func = getattr(self._client, \"get\")\n\n        def call(*args, **kwargs):\n            return self._retry(name, func, *args, **kwargs)\n\n        return call\n"),
+    m("C16-silent-getattr-def", "C16", "", R, "        return lambda *args, **kwargs: self._retry(\n            name, self._client.__getattribute__(name), *args, **kwargs\n        )\n", "        func = getattr(self._client, name)\n\n        def call(*args, **kwargs):\n            return self._retry(name, func, *args, **kwargs)\n\n        return call\n", kind="silent"),
+    m("C17-silent-getattr-def", "C17", "", R, "        return lambda *args, **kwargs: self._retry(\n            name, self._client.__getattribute__(name), *args, **kwargs\n        )\n", "        func = getattr(self._client, name)\n\n        def call(*args, **kwargs):\n            return self._retry(name, func, *args, **kwargs)\n\n        return call\n", kind="silent"),
+    m("C07-silent-merge-dict-call", "C07", "", H, "        end = {}\n", "        end = dict()\n", kind="silent"),
+    m("C07-merge-init-none", "C07", "C07.R2", H, "        end = {}\n", "        end = None\n"),
+    m("C14-rounded-end-mod-8", "C14", "C14.R3", M3, "    roundedEnd = length & 0xFFFFFFFC  # round down to 4 byte block\n", "    roundedEnd = length - length % 8\n"),
+    m("C14-silent-rounded-end-arith", "C14", "", M3, ("    roundedEnd = length & 0xFFFFFFFC  # round down to 4 byte block\n", "    val = length & 0x03\n", "    if val in [2, 3]:"), ("    roundedEnd = length - length % 4\n", "    val = length % 4\n", "    if val >= 2:"), kind="silent"),
+    m("C18-silent-primary-property", "C18", "", F, "    def set(self, key, value, expire=0, noreply=True):\n        self.caches[0].set(key, value, expire, noreply)\n", "    @property\n    def _primary(self):\n        return self.caches[0]\n\n    def set(self, key, value, expire=0, noreply=True):\n        self._primary.set(key, value, expire=expire, noreply=noreply)\n", kind="silent"),
+    m("C18-primary-property-last", "C18", "C18.R1", F, "    def set(self, key, value, expire=0, noreply=True):\n        self.caches[0].set(key, value, expire, noreply)\n", "    @property\n    def _primary(self):\n        return self.caches[1]\n\n    def set(self, key, value, expire=0, noreply=True):\n        self._primary.set(key, value, expire=expire, noreply=noreply)\n"),
+    m("C18-writer-kwargs-crossed", "C18", "C18.R1", F, "        self.caches[0].touch(key, expire, noreply)\n", "        primary = self.caches[0]\n        primary.touch(key, expire=noreply, noreply=expire)\n"),
+    m("C07-handler-returns-none-via-local", "C07", "C07.R2", H, "            if not self.ignore_exc:\n                raise\n\n            return default_val\n        except Exception:", "            if not self.ignore_exc:\n                raise\n            result = None\n            return result\n        except Exception:"),
+    m("C07-silent-handler-local", "C07", "", H, "            if not self.ignore_exc:\n                raise\n\n            return default_val\n        except Exception:", "            if not self.ignore_exc:\n                raise\n            result = default_val\n            return result\n        except Exception:", kind="silent"),
     m("C01-misc-handler-oserror-only", "C01", "C01.R1", B, "            return results\n\n        except BaseException:\n            self.close()\n            raise", "            return results\n\n        except OSError:\n            self.close()\n            raise"),
     m("C01-silent-close-alias", "C01", "", B, "        except BaseException:\n            self.close()\n            raise\n\n    def __setitem__", "        except BaseException:\n            self.disconnect_all()\n            raise\n\n    def __setitem__", kind="silent"),
     # ---------------- C02
@@ -98,7 +136,6 @@ MUTANTS = [
     m("C08-release-unlocked", "C08", "C08.R1", P, "    def release(self, obj, silent=True) -> None:\n        with self._lock:\n            try:\n                self._used_objs.remove(obj)\n                self._free_objs.append(obj)\n                obj._last_used = self._idle_clock()\n            except ValueError:\n                if not silent:\n                    raise", "    def release(self, obj, silent=True) -> None:\n        try:\n            self._used_objs.remove(obj)\n            self._free_objs.append(obj)\n            obj._last_used = self._idle_clock()\n        except ValueError:\n            if not silent:\n                raise"),
     m("C08-create-outside-lock", "C08", "C08.R2", P, "                obj = self._obj_creator()\n\n            self._used_objs.append(obj)\n            obj._last_used = now\n            return obj", "                obj = None\n            if obj is not None:\n                self._used_objs.append(obj)\n                obj._last_used = now\n                return obj\n        obj = self._obj_creator()\n        with self._lock:\n            self._used_objs.append(obj)\n            obj._last_used = now\n            return obj"),
     m("C08-destroy-always-closes", "C08", "C08.R3", P, "        if was_dropped and self._after_remove is not None:", "        if self._after_remove is not None:"),
-    m("C08-raw-get", "C08", "C08.R5", B, "    def version(self) -> bytes:\n        with self.client_pool.get_and_release(destroy_on_fail=True) as client:\n            return client.version()", "    def version(self) -> bytes:\n        client = self.client_pool.get()\n        return client.version()"),
     m("C08-client-escapes", "C08", "C08.R5", B, "        with self.client_pool.get_and_release(destroy_on_fail=True) as client:\n            return client.version()", "        with self.client_pool.get_and_release(destroy_on_fail=True) as client:\n            self._last_client = client\n            return client.version()"),
     # ---------------- C09
     m("C09-destroy-on-fail-false", "C09", "C09.R1", B, "        with self.client_pool.get_and_release(destroy_on_fail=True) as client:\n            return client.set(key, value", "        with self.client_pool.get_and_release(destroy_on_fail=False) as client:\n            return client.set(key, value"),
